@@ -1,27 +1,32 @@
 --------------------------- MODULE Trace_Vectorise ---------------------------
 (* (C) batch validation of vectorisePositions / blur / toRelativeGenomicPositions / selectPeaks results   *)
-(* recorded from the REAL functions:  {"kind": "vec"|"blur"|"bin"|"sel", "vin": {...}, "obs": ...}        *)
-EXTENDS Vectorise, Json, IOUtils
+(* recorded from the REAL functions:  {"kind": "vec"|"seq"|"blur"|"bin"|"sel", "vin": {...}, "obs": ...}        *)
+(* "seq" = OpticalMap.getSequence(SequenceGenerator(res, r), rev, start, end): vin carries r and rev as well        *)
+EXTENDS Vectorise, Json, IOUtils, SequencesExt
 
 Traces == ndJsonDeserialize(IOEnv.TRACE_FILE)
 VARIABLES t, kind
 Init == \E j \in 1..Len(Traces) :
           /\ t = j /\ kind = Traces[j].kind /\ vin = Traces[j].vin /\ k = 1 /\ out = <<>>
-          /\ ws = IF Traces[j].kind = "vec" THEN Traces[j].vin.start ELSE 0
-          /\ pc = IF Traces[j].kind = "vec" THEN "loop" ELSE Traces[j].kind
+          /\ ws = IF Traces[j].kind \in {"vec", "seq"} THEN Traces[j].vin.start ELSE 0
+          /\ pc = IF Traces[j].kind \in {"vec", "seq"} THEN "loop" ELSE Traces[j].kind
 BlurStep == pc = "blur" /\ out' = BlurImpl(vin.v, vin.r) /\ pc' = "done" /\ UNCHANGED <<vin, ws, k>>
 BinStep == pc = "bin" /\ out' = ToRel(FloorDiv(vin.x - vin.start, vin.res), vin.res, vin.start) /\ pc' = "done"
            /\ UNCHANGED <<vin, ws, k>>
+SeqStep == pc = "done" /\ kind = "seq"
+           /\ out' = (IF vin.rev THEN Reverse(BlurImpl(out, vin.r)) ELSE BlurImpl(out, vin.r))
+           /\ pc' = "done2" /\ UNCHANGED <<vin, ws, k>>
 SelStep == pc = "sel" /\ out' = SelectImpl(vin.scores, vin.count) /\ pc' = "done" /\ UNCHANGED <<vin, ws, k>>
 Verdict ==
     LET obs == Traces[t].obs
         failed == CASE kind = "vec"  -> C16_Vec_Failed(vin, obs)
+                    [] kind = "seq"  -> C16_Seq_Failed(vin, vin.r, IF vin.rev THEN Reverse(obs) ELSE obs)
                     [] kind = "blur" -> C16_Blur_Failed(vin.v, vin.r, obs)
                     [] kind = "bin"  -> C16_Bin_Failed(vin.x, vin.res, vin.start, obs)
                     [] kind = "sel"  -> C16_Sel_Failed(vin.scores, vin.count, obs)
         drift == IF out = obs THEN {} ELSE {"result_differs_from_spec"}
     IN IF failed \cup drift = {} THEN TRUE ELSE PrintT(ToString(<<"V", t, failed, drift>>))
-Report == pc = "done" /\ Verdict /\ pc' = "reported" /\ UNCHANGED <<vin, ws, k, out, t, kind>>
+Report == pc = (IF kind = "seq" THEN "done2" ELSE "done") /\ Verdict /\ pc' = "reported" /\ UNCHANGED <<vin, ws, k, out, t, kind>>
 Terminated == pc = "reported" /\ UNCHANGED <<vvars, t, kind>>
-Next == ((VecNext \/ BlurStep \/ BinStep \/ SelStep) /\ UNCHANGED <<t, kind>>) \/ Report \/ Terminated
+Next == ((VecNext \/ SeqStep \/ BlurStep \/ BinStep \/ SelStep) /\ UNCHANGED <<t, kind>>) \/ Report \/ Terminated
 =============================================================================
